@@ -1,195 +1,13 @@
 import OmbottModel.Lemmas.RouteUrlDom
+import OmbottModel.Lemmas.RouterParse
 /-!
 From the rule text to the domain of the C19 theorems: what `Route.parse_rule` returns for a rule
 inside the model's domain (`inDomain`: no marker character in the text, no repeated wildcard name)
-satisfies `urlDomain`.  The literal characters of the output pattern are characters of the rule
-text (every piece the parser hands on is a suffix of what it was given).
+satisfies `urlDomain`.  The literal characters of the output pattern are literal characters of the
+pattern, which are characters of the rule text (`parseRule_lits_in_rule` of `Lemmas/RouterParse.lean`).
 -/
 namespace Ombott.RouteUrl
 open Py Ombott.Router
-
-theorem pyName_suffix {s nm r : Str} (h : pyName s = some (nm, r)) : r <:+ s := by
-  cases s with
-  | nil => simp [pyName] at h
-  | cons c t =>
-    simp only [pyName] at h
-    split at h
-    · simp only [Option.some.injEq, Prod.mk.injEq] at h
-      rw [← h.2]
-      exact (List.dropWhile_suffix _).trans (List.suffix_cons _ _)
-    · cases h
-
-theorem scanParen_suffix : ∀ (s : Str) (lvl : Nat) (acc : Str) {inside rest : Str},
-    scanParen s lvl acc = some (inside, rest) → rest <:+ s := by
-  intro s lvl acc
-  fun_induction scanParen s lvl acc <;> intro inside rest h
-  case case1 => cases h
-  case case2 => cases h
-  case case3 ih => exact (ih h).trans ((List.suffix_cons _ _).trans (List.suffix_cons _ _))
-  case case4 => cases h; exact List.suffix_cons _ _
-  case case5 ih => exact (ih h).trans (List.suffix_cons _ _)
-  case case6 ih => exact (ih h).trans (List.suffix_cons _ _)
-  case case7 ih => exact (ih h).trans (List.suffix_cons _ _)
-
-theorem scanSelTail_suffix : ∀ (s acc : Str) {sel rest : Str},
-    scanSelTail s acc = some (sel, rest) → rest <:+ s := by
-  intro s acc
-  fun_induction scanSelTail s acc <;> intro sel rest h
-  case case1 => cases h
-  case case2 => cases h; exact List.suffix_cons _ _
-  case case3 => cases h
-  case case4 ih => exact (ih h).trans (List.suffix_cons _ _)
-
-theorem scanSel_suffix {s sel rest : Str} (h : scanSel s = some (sel, rest)) : rest <:+ s := by
-  unfold scanSel at h
-  split at h
-  · split at h
-    · cases h
-    · exact (scanSelTail_suffix _ _ h).trans ((List.suffix_cons _ _).trans (List.suffix_cons _ _))
-  · cases h
-
-theorem expectClose_suffix {d : Char} {s r : Str} (h : expectClose d s = .ok r) : r <:+ s := by
-  unfold expectClose at h
-  split at h
-  · split at h
-    · cases h; exact List.suffix_cons _ _
-    · cases h
-  · cases h
-
-theorem parseFilterTail_suffix {d : Char} {s : Str} {a sel : Option Str} {r : Str}
-    (h : parseFilterTail d s = .ok (a, sel, r)) : r <:+ s := by
-  unfold parseFilterTail at h
-  split at h
-  · cases h
-  · rename_i c r0
-    split at h
-    · simp only [pure, Except.pure, Except.ok.injEq, Prod.mk.injEq] at h
-      rw [← h.2.2]; exact List.suffix_refl _
-    · split at h
-      · split at h
-        · cases h
-        · rename_i args r' hsp
-          have h1 : r' <:+ c :: r0 := (scanParen_suffix _ _ _ hsp).trans (List.suffix_cons _ _)
-          split at h
-          · split at h
-            · rename_i sel' r'' hss
-              simp only [pure, Except.pure, Except.ok.injEq, Prod.mk.injEq] at h
-              rw [← h.2.2]; exact (scanSel_suffix hss).trans h1
-            · cases h
-          · simp only [pure, Except.pure, Except.ok.injEq, Prod.mk.injEq] at h
-            rw [← h.2.2]; exact h1
-      · split at h
-        · simp only [pure, Except.pure, Except.ok.injEq, Prod.mk.injEq] at h
-          rw [← h.2.2]; exact (List.dropWhile_suffix _).trans (List.suffix_cons _ _)
-        · cases h
-
-theorem parseParam_spec {s : Str} {p : Part} {rest : Str} (h : parseParam s = .ok (p, rest)) :
-    rest <:+ s ∧ p.part = none := by
-  unfold parseParam at h
-  split at h
-  · cases h
-  · rename_i r
-    split at h
-    · simp only [pure, Except.pure, Except.ok.injEq, Prod.mk.injEq] at h
-      rw [← h.2, ← h.1]; exact ⟨List.nil_suffix, rfl⟩
-    · split at h
-      · rename_i nm r' hpn
-        split at h
-        · simp only [pure, Except.pure, Except.ok.injEq, Prod.mk.injEq] at h
-          rw [← h.2, ← h.1]; exact ⟨(pyName_suffix hpn).trans (List.suffix_cons _ _), rfl⟩
-        · cases h
-      · cases h
-  · rename_i first r _
-    split at h
-    · cases h
-    · rename_i dclose _
-      simp only at h
-      split at h
-      · cases h
-      · rename_i name r1 hpn
-        have hr1 : r1 <:+ first :: r := by
-          refine (pyName_suffix hpn).trans ?_
-          split
-          · exact (List.drop_suffix _ _).trans (List.suffix_cons _ _)
-          · exact List.suffix_cons _ _
-        simp only [bind, Except.bind] at h
-        split at h
-        · cases h
-        · rename_i v hmid
-          have hv : v.2.2 <:+ r1 := by
-            split at hmid
-            · cases hmid
-            · rename_i c r1'
-              split at hmid
-              · simp only [pure, Except.pure, Except.ok.injEq] at hmid
-                rw [← hmid]; exact List.suffix_refl _
-              · split at hmid
-                · split at hmid
-                  · rename_i f r2 hp2
-                    simp only [pure, Except.pure, Except.ok.injEq] at hmid
-                    rw [← hmid]; exact (pyName_suffix hp2).trans (List.suffix_cons _ _)
-                  · cases hmid
-                · split at hmid
-                  · split at hmid
-                    · simp only [pure, Except.pure, Except.ok.injEq] at hmid
-                      rw [← hmid]; exact List.suffix_refl _
-                    · split at hmid
-                      · rename_i f r2 hp2
-                        simp only [pure, Except.pure, Except.ok.injEq] at hmid
-                        rw [← hmid]; exact (pyName_suffix hp2).trans (List.suffix_cons _ _)
-                      · cases hmid
-                  · split at hmid
-                    · simp only [pure, Except.pure, Except.ok.injEq] at hmid
-                      rw [← hmid]; exact List.suffix_refl _
-                    · cases hmid
-          have hv' := hv.trans hr1
-          split at h
-          · split at h
-            · cases h
-            · rename_i r3 he
-              simp only [pure, Except.pure, Except.ok.injEq, Prod.mk.injEq] at h
-              rw [← h.2, ← h.1]; exact ⟨(expectClose_suffix he).trans hv', rfl⟩
-          · split at h
-            · cases h
-            · rename_i w hw
-              split at h
-              · cases h
-              · rename_i r4 he
-                simp only [pure, Except.pure, Except.ok.injEq, Prod.mk.injEq] at h
-                rw [← h.2, ← h.1]
-                exact ⟨((expectClose_suffix he).trans (parseFilterTail_suffix (a := w.1) (sel := w.2.1) (r := w.2.2) hw)).trans hv', rfl⟩
-
-
-theorem suffix_mem {s t : Str} (h : s <:+ t) : ∀ c ∈ s, c ∈ t := fun _ hc => h.subset hc
-
-/-- the literal pieces `iter_parse` yields are made of characters of the text it was given -/
-theorem iterParse_parts (fuel : Nat) : ∀ (s : Str), ∀ x ∈ (iterParse fuel s).1, ∀ txt, x.part = some txt →
-    ∀ c ∈ txt, c ∈ s := by
-  induction fuel with
-  | zero => intro s x hx; simp [iterParse] at hx
-  | succ fuel ih =>
-    intro s x hx txt ht c hc
-    cases s with
-    | nil => simp [iterParse] at hx
-    | cons d t =>
-      simp only [iterParse] at hx
-      split at hx
-      · split at hx
-        · simp at hx
-        · rename_i p rest hpp
-          obtain ⟨hsuf, hnone⟩ := parseParam_spec hpp
-          simp only [List.mem_cons] at hx
-          rcases hx with hx | hx
-          · subst hx
-            split at ht <;> simp [hnone] at ht
-          · exact suffix_mem hsuf c (ih rest x hx txt ht c hc)
-      · simp only [List.mem_cons] at hx
-        rcases hx with hx | hx
-        · subst hx
-          simp only [Option.some.injEq] at ht
-          subst ht
-          exact (List.takeWhile_prefix _).subset hc
-        · exact suffix_mem (List.dropWhile_suffix _) c (ih _ x hx txt ht c hc)
 
 theorem tokFilters_lits (t : Str) (q : List Sym) : tokFilters (t.map Sym.lit ++ q) = tokFilters q := by
   induction t with
@@ -205,7 +23,7 @@ theorem tokCount_lits (t : Str) (q : List Sym) : tokCount (t.map Sym.lit ++ q) =
 theorem parseParts_shape (cenv : CompileEnv) (parts : List Part) (anon : Nat) (p : Parsed)
     (h : parseParts cenv parts anon = .ok p) :
     tokFilters p.symsOut = tokFilters p.syms ∧ p.params.length = tokCount p.symsOut ∧
-      ∀ c, Sym.lit c ∈ p.symsOut → ∃ x ∈ parts, ∃ txt, x.part = some txt ∧ c ∈ txt := by
+      ∀ c, Sym.lit c ∈ p.symsOut → Sym.lit c ∈ p.syms := by
   induction parts generalizing anon p with
   | nil =>
     simp [parseParts, pure, Except.pure] at h; subst h
@@ -224,11 +42,10 @@ theorem parseParts_shape (cenv : CompileEnv) (parts : List Part) (anon : Nat) (p
         refine ⟨by simp [tokFilters_lits, h1], by simp [tokCount_lits, h2], ?_⟩
         intro c hc
         simp only [List.mem_append, List.mem_map] at hc
-        rcases hc with ⟨d, hd, hdc⟩ | hc
-        · cases hdc
-          exact ⟨x, by simp, txt, hx, hd⟩
-        · obtain ⟨y, hy, t, ht, hct⟩ := h3 c hc
-          exact ⟨y, by simp [hy], t, ht, hct⟩
+        simp only [List.mem_append, List.mem_map]
+        rcases hc with hc | hc
+        · exact Or.inl hc
+        · exact Or.inr (h3 c hc)
     | none =>
       simp only [hx] at h
       cases hf : makeFilter cenv x.filter x.args with
@@ -244,8 +61,8 @@ theorem parseParts_shape (cenv : CompileEnv) (parts : List Part) (anon : Nat) (p
           refine ⟨by simp [tokFilters, tokFilters_lits, h1], by simp [tokCount, h2], ?_⟩
           intro c hc
           simp only [List.mem_cons, reduceCtorEq, false_or] at hc
-          obtain ⟨y, hy, t, ht, hct⟩ := h3 c hc
-          exact ⟨y, by simp [hy], t, ht, hct⟩
+          simp only [List.mem_cons, reduceCtorEq, false_or, List.mem_append]
+          exact Or.inr (h3 c hc)
 
 theorem eraseDups_length_le (n : Nat) : ∀ (l : List Str), l.length ≤ n → l.eraseDups.length ≤ l.length := by
   induction n with
@@ -295,6 +112,7 @@ theorem parseRule_urlDomain (cenv : CompileEnv) (rule : Str) (p : Parsed)
     urlDomain { rule := rule, syms := p.syms, params := p.params, symsOut := p.symsOut } = true := by
   simp only [inDomain, Bool.and_eq_true, Bool.not_eq_true', beq_iff_eq] at hd
   obtain ⟨hnom, hdup⟩ := hd
+  have hlits := parseRule_lits_in_rule h
   unfold parseRule at h
   cases rule with
   | nil => simp [throw, throwThe, MonadExceptOf.throw] at h
@@ -315,12 +133,11 @@ theorem parseRule_urlDomain (cenv : CompileEnv) (rule : Str) (p : Parsed)
           cases s with
           | tok f => rfl
           | lit d =>
-            obtain ⟨x, hx, txt, ht, hdt⟩ := h3 d hs
-            have hdr : d ∈ r := iterParse_parts _ r x hx txt ht d hdt
+            have hdr : d ∈ c :: r := hlits d (h3 d hs)
             have hne : d ≠ Gen.paramToken := by
               intro he; subst he
               have : (c :: r).contains Gen.paramToken = true := by
-                simp [List.contains_eq_mem, hdr]
+                simpa [List.contains_eq_mem] using hdr
               rw [this] at hnom; cases hnom
             simpa [marker_eq_paramToken] using hne
         have hnd : nodupB p'.params = true := nodupB_of_nodup (nodup_of_eraseDups _ _ (Nat.le_refl _) hdup)
